@@ -283,6 +283,19 @@ def rule_refresh(ctx):
             d = kinds["changed"][0][0]
             if not _negated_array_equal(prov, cfg, d, tn):
                 msgs.append("index_changed is not the negation of array_equal(index_initial, index)")
+        # the two flags are computed, never defaulted in an exception handler, and without number conversions that can fail
+        for d in disj:
+            if isinstance(d, ast.Name):
+                for s_ in walk_shallow(fi.node):
+                    if isinstance(s_, ast.Assign) and any(isinstance(t, ast.Name) and t.id == d.id for t in s_.targets):
+                        par = getattr(s_, "_parent", None)
+                        if isinstance(par, ast.ExceptHandler):
+                            msgs.append("`%s` is a fallback inside an exception handler: when the comparison cannot be made (e.g. a "
+                                        "non-numeric STOP) the header is written without being refreshed" % unparse(s_))
+                        for c in ast.walk(s_.value):
+                            if isinstance(c, ast.Call) and isinstance(c.func, ast.Name) and c.func.id in ("float", "int", "round", "str"):
+                                msgs.append("`%s` converts an operand of the comparison with %s(): the decision differs from the plain "
+                                            "`!=` for non-numeric or differently typed STOP values" % (unparse(s_), c.func.id))
         if msgs:
             ctx.bad("WR.REFRESH", site, fi, test, "refresh guard `%s`: %s" % (unparse(test), "; ".join(msgs)))
         else:
